@@ -2,7 +2,7 @@
 JSON-lines driver of the effects engine: the check asks the Lean policy (the single place where whitelists
 live) about effects it observed dynamically on the real code.
   {"op":"facts"}                                        -> disciplines of Gen.summary evaluated, and counts
-  {"op":"state_change","file":f,"owner":o,"name":n}     -> {"listed":b,"benign":b}   (owner "<module>" or class / "Cls<instance>")
+  {"op":"state_change","file":f,"owner":o,"name":n}     -> {"listed":b,"benign":b,"escape_only":b}   (owner "<module>" or class / "Cls<instance>")
   {"op":"set_site","file":f,"func":g,"expr":e}          -> {"known":"sensitive"|"insensitive"|"unknown"}
   {"op":"env_read","file":f,"func":g,"kind":k}          -> {"listed":b,"allowed":b,"known_finding":b}
 -/
@@ -41,8 +41,10 @@ def handle (j : Json) : Json :=
     let (f, o, n) := (str "file", str "owner", str "name")
     let ws := Gen.stateWrites.filter (fun w => targetMatches f o n w.target)
     let es := Gen.stateEscapes.filter (fun e => targetMatches f o n e.target)
-    Json.mkObj [("listed", toJson (!ws.isEmpty || !es.isEmpty)),
-                ("benign", toJson (ws.all benignWrite && es.all benignEscape))]
+    -- an observed change needs a listed WRITE; a listed escape that the policy calls benign is refuted by it
+    Json.mkObj [("listed", toJson (!ws.isEmpty)),
+                ("benign", toJson (ws.all benignWrite)),
+                ("escape_only", toJson (ws.isEmpty && !es.isEmpty))]
   | .ok "set_site" =>
     let (f, g, e) := (str "file", str "func", str "expr")
     let hit (l : List SetIter) : Bool := l.any (fun s => s.file == f && s.func == g && (s.expr == e || (e.splitOn s.expr).length > 1 || (s.expr.splitOn e).length > 1))
